@@ -423,8 +423,11 @@ class _Walker:
                 self._record_calls(it, cond, st, env)
             names = _assigned_names(st.body + st.orelse)
             tnames = _assigned_names([ast.Expr(value=st.target)]) if not isinstance(st, ast.While) else []
+            carried = {}
             for j, n in enumerate(n for n in names if n not in tnames):
-                env[n] = _name(f"LOOP{k}.{j}")
+                sym = _name(f"LOOP{k}.{j}")
+                carried[n] = (sym, env.get(n))
+                env[n] = sym
             for j, n in enumerate(tnames):
                 env[n] = ast.Call(func=_name(f"ELEM{k}.{j}"), args=[copy.deepcopy(it)], keywords=[])
             inner = cond + ((_name(f"LOOP{k}"), True),)
@@ -433,7 +436,15 @@ class _Walker:
                 self._record_calls(t, inner, st, env)
                 inner = inner + ((t, True),)
             v0 = self._vsave()
-            self.block(st.body, dict(env), inner)
+            endb = self.block(st.body, dict(env), inner)
+            # loop-carried locals: what one iteration makes of them (a recurrence), and what they start from
+            for n, (sym, pre) in carried.items():
+                if endb is not None:
+                    post = endb[0].get(n)
+                    if post is not None and not (isinstance(post, ast.Name) and post.id == sym.id):
+                        self.flow.effects.append(Eff(inner, "carry", ast.Assign(targets=[copy.deepcopy(sym)], value=post), st))
+                        if pre is not None:
+                            self.flow.effects.append(Eff(cond, "carry", ast.Assign(targets=[_name(sym.id + ".init")], value=pre), st))
             if st.orelse:
                 self.block(st.orelse, dict(env), cond + ((_name(f"LOOP{k}.else"), True),))
             self._vjoin([v0, self._vsave()])
